@@ -18,15 +18,17 @@
 //!        split  CompositionPoly::new + evaluate_at + recombination
 //!        vgroup winter_air::BoundaryConstraintGroup::evaluate_at (verifier side)
 //!        tcomb  winter_air::TransitionConstraints::combine_evaluations (verifier side)
+//!        lag    the Lagrange-kernel part of evaluate() (all other coefficients zero) on harness/src/lagfam.rs members
 use std::cell::RefCell;
 use std::collections::BTreeMap;
 use std::marker::PhantomData;
 use std::panic::AssertUnwindSafe;
 
-use wf_harness::{airfam::*, catch, coinrec::{take_log, RecordingCoin}, jstr, prng::Rng, silence_panics, toy::ToyHasher};
+use wf_harness::{airfam::*, catch, coinrec::{take_log, RecordingCoin}, jstr, lagfam::{LagAir, LagProver, LagTrace}, prng::Rng, silence_panics, toy::ToyHasher};
 use winter_air::{
-    proof::OodFrame, Air, AirContext, Assertion, AuxRandElements, ConstraintCompositionCoefficients, EvaluationFrame, FieldExtension,
-    ProofOptions, TraceInfo, TransitionConstraints,
+    proof::{OodFrame, TraceOodFrame}, Air, AirContext, Assertion, AuxRandElements, ConstraintCompositionCoefficients, EvaluationFrame,
+    FieldExtension, LagrangeConstraintsCompositionCoefficients, LagrangeKernelEvaluationFrame, LagrangeKernelRandElements, ProofOptions,
+    TraceInfo, TransitionConstraints,
 };
 use winter_crypto::{hashers::Blake3_256, DefaultRandomCoin, ElementHasher, RandomCoin};
 use winter_math::{
@@ -35,7 +37,7 @@ use winter_math::{
 };
 use winter_prover::{
     matrix::ColMatrix, CompositionPoly, CompositionPolyTrace, ConstraintEvaluator, DefaultConstraintEvaluator, DefaultTraceLde,
-    Prover, StarkDomain, Trace, TraceLde, TracePolyTable,
+    Prover, ProverGkrProof, StarkDomain, Trace, TraceLde, TracePolyTable,
 };
 use winter_utils::{Serializable, SliceReader};
 use winter_verifier::{verify, AcceptableOptions};
@@ -739,6 +741,250 @@ fn random_aux_extras(spec: &Spec, r: &mut Rng) -> Vec<AKind> {
     out
 }
 
+// ================================================================================================ Lagrange-kernel members
+/// The definition of the composition polynomial of `lagfam::LagAir` (main column 0,1,2,.. with next = cur + 1 and
+/// col[0] = 0; aw - 1 auxiliary columns asserted 0 at step 0 (column 0 only); the last auxiliary column is the Lagrange
+/// kernel of r_0 .. r_(v-1)), written from scratch:
+///   alpha_0 (T(gx) - T(x) - 1) / prod_{k < n-1} (x - g^k)  +  alpha_1 * 0                       (transition, main / aux)
+/// + beta_0 T(x) / (x - 1) + beta_1 A_0(x) / (x - 1)                                             (boundary, main / aux)
+/// + sum_{k=1..v} lambda_(k-1) (r[v-k] L(x) - (1 - r[v-k]) L(g^(2^(v-k)) x)) / prod_{j < 2^(k-1)} (x - g^(j n / 2^(k-1)))
+/// + lambda_b (L(x) - prod_i (1 - r_i)) / (x - 1)                                                (Lagrange kernel)
+struct LagRef<B: StarkField, E: FieldElement<BaseField = B>> {
+    n: usize, v: usize, g: B, tr: Interp<B>,
+    main: Vec<B>, aux: Vec<Vec<E>>,          // aux columns incl. the Lagrange kernel column (last)
+    r: Vec<E>, tcoef: Vec<E>, bcoef: Vec<E>, lcoef: Vec<E>, lb: E,
+}
+struct LagPoint<E> { cur: Vec<E>, nxt: Vec<E>, lframe: Vec<E>, value: E }
+impl<B: StarkField, E: FieldElement<BaseField = B>> LagRef<B, E> {
+    fn at(&self, x: E) -> LagPoint<E> {
+        let (n, v) = (self.n, self.v);
+        let b0 = self.tr.basis(x);
+        let b1 = self.tr.basis(x * E::from(self.g));
+        let t = dot_b(&b0, &self.main);
+        let tn = dot_b(&b1, &self.main);
+        let a: Vec<E> = self.aux.iter().map(|c| dot_e(&b0, c)).collect();
+        let an: Vec<E> = self.aux.iter().map(|c| dot_e(&b1, c)).collect();
+        let lag = &self.aux[self.aux.len() - 1];
+        // frame of the Lagrange kernel column: L(x), L(g x), L(g^2 x), L(g^4 x), .., L(g^(2^(v-1)) x)
+        let mut lframe = vec![dot_e(&b0, lag)];
+        for i in 0..v { lframe.push(dot_e(&self.tr.basis(x * E::from(self.g.exp((1u64 << i).into()))), lag)); }
+        let mut dt = E::ONE;
+        let mut p = B::ONE;
+        for _ in 0..n - 1 { dt *= x - E::from(p); p *= self.g; }
+        let xm1 = x - E::ONE;
+        let mut value = self.tcoef[0] * (tn - t - E::ONE) / dt + self.tcoef[1] * E::ZERO;
+        value += self.bcoef[0] * t / xm1 + self.bcoef[1] * a[0] / xm1;
+        for k in 1..=v {
+            let rk = self.r[v - k];
+            let num = rk * lframe[0] - (E::ONE - rk) * lframe[v - k + 1];
+            // enforced on the subgroup of size 2^(k-1)
+            let size = 1usize << (k - 1);
+            let h = self.g.exp(((n / size) as u64).into());
+            let (mut d, mut hp) = (E::ONE, B::ONE);
+            for _ in 0..size { d *= x - E::from(hp); hp *= h; }
+            value += self.lcoef[k - 1] * num / d;
+        }
+        let asserted = self.r.iter().fold(E::ONE, |acc, &ri| acc * (E::ONE - ri));
+        value += self.lb * (lframe[0] - asserted) / xm1;
+        let mut cur = vec![t]; cur.extend(&a[..a.len() - 1]);
+        let mut nxt = vec![tn]; nxt.extend(&an[..an.len() - 1]);
+        LagPoint { cur, nxt, lframe, value }
+    }
+}
+/// auxiliary segment of the honest prover (lagfam::LagProver::build_aux_trace, re-derived)
+fn lag_aux_cols<B: StarkField, E: FieldElement<BaseField = B>>(main: &[B], aw: usize, r: &[E], rands: &[E]) -> Vec<Vec<E>> {
+    let sum = r.iter().fold(E::ZERO, |a, &x| a + x) + rands.iter().fold(E::ZERO, |a, &x| a + x);
+    let mut cols: Vec<Vec<E>> = (1..aw).map(|_| main.iter().map(|&m| sum * E::from(m)).collect()).collect();
+    cols.push((0..main.len()).map(|row| r.iter().enumerate().fold(E::ONE, |acc, (bit, &ri)| if row & (1 << bit) == 0 { acc * (E::ONE - ri) } else { acc * ri })).collect());
+    cols
+}
+
+/// which coefficients are non-zero: everything random, only Lagrange transition constraint k, only the Lagrange boundary
+#[derive(Clone, Copy, PartialEq)]
+enum LagMode { All, OnlyK(usize), OnlyBoundary }
+
+/// (a) + (b) for a Lagrange-kernel member, evaluator driven directly with chosen random elements and coefficients
+fn lagrange_direct<B, E>(log_n: u32, aw: usize, nr: usize, blowup: usize, ext: FieldExtension, field: &str, mode: LagMode, r: &mut Rng, st: &mut Stats)
+where B: StarkField + ExtensibleField<2> + ExtensibleField<3> + 'static, E: FieldElement<BaseField = B> {
+    let n = 1usize << log_n;
+    let v = log_n as usize;
+    let what = match mode { LagMode::All => "all".to_string(), LagMode::OnlyK(k) => format!("k={}", k), LagMode::OnlyBoundary => "boundary".into() };
+    let desc = format!("lagrange field={} ext={:?} blowup={} n={} aux_width={} aux_rands={} coefficients={}", field, ext, blowup, n, aw, nr, what);
+    let trace = LagTrace::<B>::new(log_n, aw, nr);
+    let info = trace.info.clone();
+    let opts = ProofOptions::new(4, blowup, 0, ext, 2, 1);
+    let air = match catch(AssertUnwindSafe(|| LagAir::<B>::new(info.clone(), (), opts))) { Ok(a) => a, Err(m) => { fail("lagrange-air-rejected", &desc, "air", &m); st.fails += 1; return; } };
+    let ce_blowup = air.ce_blowup_factor();
+    let ncols = air.context().num_constraint_composition_columns();
+    let maincol: Vec<B> = trace.main.get_column(0).to_vec();
+    let rl: Vec<E> = (0..v).map(|_| rand_e::<E>(r)).collect();
+    let rands: Vec<E> = (0..nr).map(|_| rand_e::<E>(r)).collect();
+    let aux = lag_aux_cols::<B, E>(&maincol, aw, &rl, &rands);
+    let z0 = |on: bool, r: &mut Rng| if on { rand_e::<E>(r) } else { E::ZERO };
+    let all = mode == LagMode::All;
+    let tcoef: Vec<E> = (0..2).map(|_| z0(all, r)).collect();
+    let bcoef: Vec<E> = (0..2).map(|_| z0(all, r)).collect();
+    let lcoef: Vec<E> = (0..v).map(|k| z0(all || mode == LagMode::OnlyK(k), r)).collect();
+    let lb = z0(all || mode == LagMode::OnlyBoundary, r);
+    let domain = StarkDomain::new(&air);
+    let (mut lde, _p): (DefaultTraceLde<E, ToyHasher<B>>, TracePolyTable<E>) = DefaultTraceLde::new(&info, &trace.main, &domain);
+    lde.set_aux_trace(&ColMatrix::new(aux.clone()), &domain);
+    let aux_re = AuxRandElements::new_with_lagrange(rands.clone(), Some(LagrangeKernelRandElements::new(rl.clone())));
+    let coeffs = ConstraintCompositionCoefficients { transition: tcoef.clone(), boundary: bcoef.clone(),
+        lagrange: Some(LagrangeConstraintsCompositionCoefficients { transition: lcoef.clone(), boundary: lb }) };
+    let evals: Vec<E> = match catch(AssertUnwindSafe(|| DefaultConstraintEvaluator::<LagAir<B>, E>::new(&air, Some(aux_re), coeffs).evaluate(&lde, &domain).into_inner())) {
+        Ok(e) => e, Err(m) => { fail("lagrange-evaluate-panicked", &desc, "evaluations", &m); st.fails += 1; return; } };
+    let rd = LagRef::<B, E> { n, v, g: B::get_root_of_unity(log_n), tr: Interp::new((0..n).map(|i| B::get_root_of_unity(log_n).exp((i as u64).into())).collect()),
+        main: maincol, aux, r: rl, tcoef, bcoef, lcoef, lb };
+    let ce = n * ce_blowup;
+    if evals.len() != ce { fail("ce-domain-size", &desc, &ce.to_string(), &evals.len().to_string()); st.fails += 1; return; }
+    let wce = B::get_root_of_unity(ce.ilog2());
+    let offset = air.domain_offset();
+    let mut rows: Vec<usize> = if ce <= 32 { (0..ce).collect() } else {
+        let mut x = vec![0, 1, 2, 3, ce_blowup, ce / 2, ce / 2 + 1, ce - 1, ce - 2, ce / 4, 3 * ce / 4];
+        for _ in 0..(if all { 10 } else { 5 }) { x.push(r.below(ce as u64) as usize); }
+        x.sort(); x.dedup(); x };
+    rows.retain(|&i| i < ce);
+    for &i in &rows {
+        let x = E::from(offset * wce.exp((i as u64).into()));
+        let p = rd.at(x);
+        st.evals += 1;
+        if evals[i] != p.value { fail("lagrange-table-row-differs-from-definition", &format!("{} row={}", desc, i), &hx(&p.value), &hx(&evals[i])); st.fails += 1; return; }
+    }
+    st.shape(&format!("lagrange:n={}:{}:prover-rows", n, what));
+    st.shape(&format!("lagrange:ext={:?}", ext));
+    st.shape(&format!("lagrange:other-aux-columns={}", if aw > 1 { "yes" } else { "no" }));
+    if ce_blowup < blowup { st.shape("lagrange:ce_blowup<lde_blowup"); }
+    // (b): only when the trace satisfies every assertion (aux_width 1 asserts 0 on the kernel column itself: row level only)
+    if aw < 2 { return; }
+    let cp = match catch(AssertUnwindSafe(|| CompositionPoly::new(CompositionPolyTrace::new(evals.clone()), &domain, ncols))) {
+        Ok(c) => c, Err(m) => { fail("lagrange-composition-poly-new-panicked", &desc, "columns", &m); st.fails += 1; return; } };
+    for _ in 0..2 {
+        let z = rand_e::<E>(r);
+        let hs = cp.evaluate_at(z);
+        let zn = pw(z, n as u64);
+        let (mut acc, mut zp) = (E::ZERO, E::ONE);
+        for h in &hs { acc += zp * *h; zp *= zn; }
+        st.evals += 1;
+        if acc != rd.at(z).value { fail("lagrange-composition-poly-differs-from-definition", &format!("{} z={}", desc, hx(&z)), "definition", &hx(&acc)); st.fails += 1; return; }
+    }
+    st.shape(&format!("lagrange:n={}:{}:composition-poly", n, what));
+}
+
+thread_local! { static LAGCAP: RefCell<Vec<Vec<Vec<u8>>>> = RefCell::new(Vec::new()); }
+/// lagfam::LagProver with the evaluator's inputs captured
+struct CapLagProver<B: StarkField, H, R> { inner: LagProver<B, H, R> }
+impl<B, H, R> Prover for CapLagProver<B, H, R>
+where B: StarkField + ExtensibleField<2> + ExtensibleField<3> + 'static, H: ElementHasher<BaseField = B> + Send + Sync,
+      R: RandomCoin<BaseField = B, Hasher = H> + Send + Sync {
+    type BaseField = B;
+    type Air = LagAir<B>;
+    type Trace = LagTrace<B>;
+    type HashFn = H;
+    type RandomCoin = R;
+    type TraceLde<E: FieldElement<BaseField = B>> = DefaultTraceLde<E, H>;
+    type ConstraintEvaluator<'a, E: FieldElement<BaseField = B>> = DefaultConstraintEvaluator<'a, LagAir<B>, E>;
+    fn get_pub_inputs(&self, _t: &LagTrace<B>) {}
+    fn options(&self) -> &ProofOptions { &self.inner.options }
+    fn new_trace_lde<E: FieldElement<BaseField = B>>(&self, trace_info: &TraceInfo, main_trace: &ColMatrix<B>, domain: &StarkDomain<B>) -> (Self::TraceLde<E>, TracePolyTable<E>) { DefaultTraceLde::new(trace_info, main_trace, domain) }
+    fn new_evaluator<'a, E: FieldElement<BaseField = B>>(&self, air: &'a LagAir<B>, aux: Option<AuxRandElements<E>>, cc: ConstraintCompositionCoefficients<E>) -> Self::ConstraintEvaluator<'a, E> {
+        let ser = |v: &[E]| { let mut b = Vec::new(); for e in v { e.write_into(&mut b); } b };
+        let a = aux.as_ref().expect("aux rand elements");
+        let l = cc.lagrange.as_ref().expect("lagrange coefficients");
+        LAGCAP.with(|c| c.borrow_mut().push(vec![ser(a.lagrange().expect("lagrange rands")), ser(a.rand_elements()), ser(&cc.transition), ser(&cc.boundary), ser(&l.transition), ser(&[l.boundary])]));
+        DefaultConstraintEvaluator::new(air, aux, cc)
+    }
+    fn generate_gkr_proof<E: FieldElement<BaseField = B>>(&self, main_trace: &LagTrace<B>, public_coin: &mut R) -> (ProverGkrProof<Self>, LagrangeKernelRandElements<E>) {
+        self.inner.generate_gkr_proof::<E>(main_trace, public_coin)
+    }
+    fn build_aux_trace<E: FieldElement<BaseField = B>>(&self, main_trace: &LagTrace<B>, aux: &AuxRandElements<E>) -> ColMatrix<E> { self.inner.build_aux_trace(main_trace, aux) }
+}
+
+/// (c) for a Lagrange-kernel member: real proof; coefficients = coin draws in the real order (GKR randomness, auxiliary
+/// randomness, transition, boundary, Lagrange transition, Lagrange boundary, then z); OOD constraint evaluations recombined at
+/// z = definition; OOD frames = T(z), T(gz) and the Lagrange frame L(z), L(gz), L(g^2 z), ..; verify() accepts, and rejects
+/// after one OOD constraint evaluation or one Lagrange frame entry is changed
+fn lagrange_proof<B, E>(log_n: u32, aw: usize, nr: usize, blowup: usize, ext: FieldExtension, field: &str, r: &mut Rng, st: &mut Stats)
+where B: StarkField + ExtensibleField<2> + ExtensibleField<3> + 'static, E: FieldElement<BaseField = B> {
+    type H<B> = Blake3_256<B>;
+    let n = 1usize << log_n;
+    let v = log_n as usize;
+    let desc = format!("lagrange-proof field={} ext={:?} blowup={} n={} aux_width={} aux_rands={}", field, ext, blowup, n, aw, nr);
+    let (fold, rem) = (2usize, 1usize);
+    let q = 1 + r.below(4) as usize;
+    if !fri_wellformed(n * blowup, blowup, fold, rem) { st.shape("skipped:fri-schedule"); return; }
+    let opts = ProofOptions::new(q, blowup, 0, ext, fold, rem);
+    let prover = CapLagProver::<B, H<B>, RecordingCoin<DefaultRandomCoin<H<B>>>> { inner: LagProver::new(opts.clone(), aw) };
+    let trace = LagTrace::<B>::new(log_n, aw, nr);
+    let maincol: Vec<B> = trace.main.get_column(0).to_vec();
+    let info = trace.info.clone();
+    LAGCAP.with(|c| c.borrow_mut().clear());
+    let _ = take_log();
+    let _ = wf_harness::lagfam::take_uses();
+    let proof = match catch(AssertUnwindSafe(|| prover.prove(trace))) {
+        Ok(Ok(p)) => p,
+        Ok(Err(e)) => { fail("lagrange-honest-prove-error", &desc, "proof", &format!("{}", e)); st.fails += 1; return; }
+        Err(m) => { fail("lagrange-honest-prove-panicked", &desc, "proof", &m); st.fails += 1; return; } };
+    let log = take_log();
+    let _ = wf_harness::lagfam::take_uses();
+    let cap = LAGCAP.with(|c| c.borrow().clone());
+    if cap.len() != 1 { fail("lagrange-capture", &desc, "1 evaluator", &cap.len().to_string()); st.fails += 1; return; }
+    let parts: Vec<Vec<E>> = cap[0].iter().map(|b| de_many::<E>(b)).collect();
+    let (rl, rands, tcoef, bcoef, lcoef, lb) = (parts[0].clone(), parts[1].clone(), parts[2].clone(), parts[3].clone(), parts[4].clone(), parts[5][0]);
+    let draws: Vec<Vec<u8>> = log.iter().filter(|l| l.contains(" draw deg")).map(|l| unhex(l.rsplit(' ').next().unwrap())).collect();
+    let mut replay: Vec<E> = rl.clone(); replay.extend(&rands); replay.extend(&tcoef); replay.extend(&bcoef); replay.extend(&lcoef); replay.push(lb);
+    let want = replay.len();
+    if rl.len() != v || lcoef.len() != v || tcoef.len() != 2 || bcoef.len() != 2 || rands.len() != nr {
+        fail("lagrange-coefficient-counts", &desc, &format!("r={} lambda={} t=2 b=2 aux={}", v, v, nr), &format!("r={} lambda={} t={} b={} aux={}", rl.len(), lcoef.len(), tcoef.len(), bcoef.len(), rands.len())); st.fails += 1; return; }
+    if draws.len() <= want { fail("lagrange-coin-log-too-short", &desc, &format!(">{}", want), &draws.len().to_string()); st.fails += 1; return; }
+    let drawn: Vec<E> = draws[..want + 1].iter().map(|b| de_many::<E>(b)[0]).collect();
+    if drawn[..want] != replay[..] { fail("lagrange-coefficients-are-not-the-coin-draws-in-order", &desc, "gkr ++ aux ++ transition ++ boundary ++ lagrange transition ++ lagrange boundary", "different"); st.fails += 1; return; }
+    let z = drawn[want];
+    let g = B::get_root_of_unity(log_n);
+    let aux = lag_aux_cols::<B, E>(&maincol, aw, &rl, &rands);
+    let rd = LagRef::<B, E> { n, v, g, tr: Interp::new((0..n).map(|i| g.exp((i as u64).into())).collect()), main: maincol, aux, r: rl, tcoef, bcoef, lcoef, lb };
+    let air = LagAir::<B>::new(info.clone(), (), opts.clone());
+    let ncols = air.context().num_constraint_composition_columns();
+    let (frame, hs) = match proof.ood_frame.clone().parse::<E>(1, aw, ncols) { Ok(x) => x, Err(e) => { fail("lagrange-ood-frame-parse", &desc, "frame", &format!("{}", e)); st.fails += 1; return; } };
+    let p = rd.at(z);
+    st.evals += 1;
+    let zn = pw(z, n as u64);
+    let (mut acc, mut zp) = (E::ZERO, E::ONE);
+    for h in &hs { acc += zp * *h; zp *= zn; }
+    if acc != p.value { fail("lagrange-committed-ood-evaluations-differ-from-definition", &format!("{} z={}", desc, hx(&z)), &hx(&p.value), &hx(&acc)); st.fails += 1; }
+    let lf: Vec<E> = frame.lagrange_kernel_frame().map(|f| f.inner().to_vec()).unwrap_or_default();
+    if frame.current_row() != &p.cur[..] || frame.next_row() != &p.nxt[..] || lf != p.lframe {
+        fail("lagrange-ood-frames-differ-from-trace-polynomials", &desc, "T(z),T(gz); L(z),L(gz),L(g^2 z),..", "different"); st.fails += 1; }
+    let acc_opts = AcceptableOptions::OptionSet(vec![opts.clone()]);
+    let bytes = proof.to_bytes();
+    st.evals += 1;
+    match catch(AssertUnwindSafe(|| verify::<LagAir<B>, H<B>, DefaultRandomCoin<H<B>>>(proof, (), &acc_opts))) {
+        Ok(Ok(())) => {}
+        Ok(Err(e)) => { fail("lagrange-honest-proof-rejected", &desc, "Ok", &format!("{}", e)); st.fails += 1; }
+        Err(m) => { fail("lagrange-verify-panicked", &desc, "Ok", &m); st.fails += 1; } }
+    // perturbations: one OOD constraint evaluation; one entry of the Lagrange frame
+    for which in 0..2 {
+        let mut bad = winter_air::proof::Proof::from_bytes(&bytes).unwrap();
+        let mut hs2 = hs.clone();
+        let mut lf2 = lf.clone();
+        let what = if which == 0 { let k = r.below(hs2.len() as u64) as usize; hs2[k] += E::ONE; format!("constraint-evaluation {}", k) }
+                   else { let k = r.below(lf2.len() as u64) as usize; lf2[k] += E::ONE; format!("lagrange-frame entry {}", k) };
+        let tf = TraceOodFrame::new(frame.current_row().to_vec(), frame.next_row().to_vec(), 1, Some(LagrangeKernelEvaluationFrame::new(lf2)));
+        let mut of = OodFrame::default();
+        of.set_trace_states::<E, H<B>>(&tf);
+        of.set_constraint_evaluations(&hs2);
+        bad.ood_frame = of;
+        st.evals += 1;
+        match catch(AssertUnwindSafe(|| verify::<LagAir<B>, H<B>, DefaultRandomCoin<H<B>>>(bad, (), &acc_opts))) {
+            Ok(Err(_)) => {}
+            Ok(Ok(())) => { fail("lagrange-perturbed-ood-accepted", &format!("{} changed={}", desc, what), "Err", "Ok"); st.fails += 1; }
+            Err(m) => { fail("lagrange-verify-panicked-on-perturbed-proof", &format!("{} changed={}", desc, what), "Err", &m); st.fails += 1; } }
+    }
+    st.shape(&format!("lagrange:n={}:verifier-ood", n));
+    st.shape(&format!("lagrange:ext={:?}", ext));
+    if air.ce_blowup_factor() < blowup { st.shape("lagrange:ce_blowup<lde_blowup"); }
+}
+
 fn falsify(seed: u64, budget: usize) {
     let mut r = Rng::new(seed);
     let mut st = Stats::default();
@@ -798,6 +1044,25 @@ fn falsify(seed: u64, budget: usize) {
                 _ => direct_case::<f128::BaseElement, f128::BaseElement>(&s, &extra, 2, FieldExtension::None, "f128", structured, &mut r, &mut st),
             }
         } } } }
+    }
+    // boundary stream: Lagrange-kernel members (harness/src/lagfam.rs): n in {8, 16, 64, 256}, base field and quadratic
+    // extension, with and without other auxiliary columns, LDE blowup 2..16 over a ce blowup of 2; every Lagrange transition
+    // constraint k isolated (all other coefficients zero), the Lagrange boundary constraint isolated, everything together;
+    // and real proofs
+    for (ni, &log_n) in [3u32, 4, 6, 8].iter().enumerate() {
+        let v = log_n as usize;
+        let blowups = [4usize, 8, 2, 16];
+        for k in 0..v + 2 {
+            let mode = if k < v { LagMode::OnlyK(k) } else if k == v { LagMode::OnlyBoundary } else { LagMode::All };
+            let aw = 1 + (k + ni) % 3;
+            let blowup = blowups[(k + ni) % 4];
+            if (k + ni) % 2 == 0 { lagrange_direct::<f64::BaseElement, f64::BaseElement>(log_n, aw, k % 3, blowup, FieldExtension::None, "f64", mode, &mut r, &mut st); }
+            else { lagrange_direct::<f64::BaseElement, QuadExtension<f64::BaseElement>>(log_n, aw, k % 3, blowup, FieldExtension::Quadratic, "f64", mode, &mut r, &mut st); }
+        }
+        lagrange_direct::<f64::BaseElement, QuadExtension<f64::BaseElement>>(log_n, 2, 1, 8, FieldExtension::Quadratic, "f64", LagMode::All, &mut r, &mut st);
+        lagrange_direct::<f128::BaseElement, f128::BaseElement>(log_n, 3, 2, 4, FieldExtension::None, "f128", LagMode::All, &mut r, &mut st);
+        lagrange_proof::<f64::BaseElement, f64::BaseElement>(log_n, 2 + ni % 2, 1, 8, FieldExtension::None, "f64", &mut r, &mut st);
+        lagrange_proof::<f64::BaseElement, QuadExtension<f64::BaseElement>>(log_n, 3 - ni % 2, 2, 4, FieldExtension::Quadratic, "f64", &mut r, &mut st);
     }
     let mut i = 0usize;
     while (st.evals as usize) < budget && i < budget * 4 + 64 {
@@ -958,6 +1223,37 @@ fn corr_verifier(spec: &Spec, blowup: usize, r: &mut Rng, out: &mut Vec<String>)
         .split_whitespace().collect::<Vec<_>>().join(" "));
 }
 
+fn corr_lag(k: usize, r: &mut Rng) -> String {
+    let log_n = [3u32, 4, 3, 5][k % 4];
+    let (n, v) = (1usize << log_n, log_n as usize);
+    let aw = 1 + k % 3;
+    let nr = k % 2;
+    let blowup = [2usize, 4, 8][k % 3];
+    let trace = LagTrace::<B64>::new(log_n, aw, nr);
+    let info = trace.info.clone();
+    let air = LagAir::<B64>::new(info.clone(), (), ProofOptions::new(4, blowup, 0, FieldExtension::None, 2, 1));
+    let maincol: Vec<B64> = trace.main.get_column(0).to_vec();
+    let rl: Vec<B64> = (0..v).map(|_| rand_e::<B64>(r)).collect();
+    let rands: Vec<B64> = (0..nr).map(|_| rand_e::<B64>(r)).collect();
+    let aux = lag_aux_cols::<B64, B64>(&maincol, aw, &rl, &rands);
+    // every fourth case: one coefficient only
+    let lcoef: Vec<B64> = (0..v).map(|i| if k % 4 == 3 && i != k % v { B64::ZERO } else { rand_e::<B64>(r) }).collect();
+    let lb = if k % 4 == 3 { B64::ZERO } else { rand_e::<B64>(r) };
+    let domain = StarkDomain::new(&air);
+    let (mut lde, _p): (DefaultTraceLde<B64, ToyHasher<B64>>, TracePolyTable<B64>) = DefaultTraceLde::new(&info, &trace.main, &domain);
+    lde.set_aux_trace(&ColMatrix::new(aux), &domain);
+    let rows = n * blowup;
+    let mut col = Vec::with_capacity(rows);
+    let mut af = EvaluationFrame::<B64>::new(aw);
+    for j in 0..rows { lde.read_aux_trace_frame_into(j, &mut af); col.push(af.current()[aw - 1]); }
+    let aux_re = AuxRandElements::new_with_lagrange(rands, Some(LagrangeKernelRandElements::new(rl.clone())));
+    let coeffs = ConstraintCompositionCoefficients { transition: vec![B64::ZERO; 2], boundary: vec![B64::ZERO; 2],
+        lagrange: Some(LagrangeConstraintsCompositionCoefficients { transition: lcoef.clone(), boundary: lb }) };
+    let res = match catch(AssertUnwindSafe(|| DefaultConstraintEvaluator::<LagAir<B64>, B64>::new(&air, Some(aux_re), coeffs).evaluate(&lde, &domain).into_inner())) {
+        Ok(e) => e.iter().map(|x| h64(*x)).collect::<Vec<_>>().join(","), Err(_) => "panic".into() };
+    format!("lag {:x} {:x} {:x} {} {:x} {} {} {} {:x} {} => {}", n, air.ce_blowup_factor(), blowup, h64(air.domain_offset()), v, hlist(&lcoef), hlist(&rl), h64(lb), rows, hlist(&col), res)
+}
+
 fn corr(seed: u64, count: usize) {
     let mut r = Rng::new(seed ^ 0xC17);
     let mut lines = vec![];
@@ -1003,6 +1299,7 @@ fn corr(seed: u64, count: usize) {
         if let Some(l) = corr_eval(&spec, &extra, blowup, structured, &mut r) { lines.push(l); made += 1; }
     }
     for k in 0..count { lines.push(corr_split(&mut r, k)); }
+    for k in 0..count { lines.push(corr_lag(k, &mut r)); }
     for _ in 0..count {
         let blowup = *r.pick(&[2usize, 4, 8]);
         let mut spec = c17_spec(&mut r, blowup, false);
